@@ -777,6 +777,9 @@ func TestDriver(t *testing.T) {
 		}
 	}
 
+	// ---- phase 4: what a mock network cannot show (real deadlines, the real resource manager)
+	d.realTransport()
+
 	// ---- nothing may be left behind: no handler goroutine, goroutine count back to the baseline
 	deadline := time.Now().Add(20 * time.Second)
 	var left string
